@@ -25,8 +25,9 @@ NOT_COVERED = ['the sample loops in front of the modelled integer code — the m
                'library in the tie); the side-channel prediction loops after silk_stereo_quant_pred and silk_stereo_MS_to_LR are '
                'other slices',
                'that the plain int additions / subtractions of stereo_find_predictor.c:67-73 do not overflow is not proved (the model '
-               'reduces them mod 2^32; the tie runs under UBSan); that smth_width_Q14 stays in [0, 2^14] is not proved — the bound '
-               '[-2^15, 2^15] on the pair holds for ANY opus_int16 width, [-2^14, 2^14] is proved given that range',
+               'reduces them mod 2^32; the tie runs under UBSan); the bound [-2^15, 2^15] on the pair '
+               'holds for ANY opus_int16 width state; [-2^14, 2^14] and the width invariant are proved for prev_speech_act_Q8 in [0, 255] '
+               '(that the caller passes such a value is not part of this slice)',
                'inputs above silk_int32_MAX - 13365 (13 365 values per predictor): `pred_Q13[n] - lvl_Q13` overflows opus_int32 '
                '(undefined behaviour), the model answers UB and the harness does not call the library on them; the encoder never '
                'produces them (encoder_pred_in_domain)',
@@ -49,7 +50,7 @@ LEVEL_NOTE = ('trusted: Lean kernel; harness and line protocol; the reading of s
               'is proved equal to the scan the theorems use, the tie runs the scan form')
 TECHNIQUE = 'Lean 4 theorems over an executable model + differential correspondence + implementation-only search'
 
-REQUIRED_THEOREMS = ['OpusProps.C18Stereo.table_facts', 'OpusProps.C18Stereo.quant_indices_in_range', 'OpusProps.C18Stereo.enc_dec_agree', 'OpusProps.C18Stereo.quant_nearest', 'OpusProps.C18Stereo.quant_error_bound', 'OpusProps.C18Stereo.dequant_in_range', 'OpusProps.C18Stereo.dequant_in_range_any_state', 'OpusProps.C18Stereo.mid_only_flag_binary', 'OpusProps.C18Stereo.encoder_pred_in_domain', 'OpusProps.C18Stereo.encoder_stereo_symbols_valid', 'OpusProps.C18Stereo.mid_only_round_trip', 'OpusProps.C18Stereo.nested_loops_are_scan', 'OpusProps.C18Stereo.domain_exact']
+REQUIRED_THEOREMS = ['OpusProps.C18Stereo.table_facts', 'OpusProps.C18Stereo.quant_indices_in_range', 'OpusProps.C18Stereo.enc_dec_agree', 'OpusProps.C18Stereo.quant_nearest', 'OpusProps.C18Stereo.quant_error_bound', 'OpusProps.C18Stereo.dequant_in_range', 'OpusProps.C18Stereo.dequant_in_range_any_state', 'OpusProps.C18Stereo.mid_only_flag_binary', 'OpusProps.C18Stereo.encoder_pred_in_domain', 'OpusProps.C18Stereo.encoder_width_invariant', 'OpusProps.C18Stereo.encoder_stereo_symbols_valid', 'OpusProps.C18Stereo.mid_only_round_trip', 'OpusProps.C18Stereo.nested_loops_are_scan', 'OpusProps.C18Stereo.domain_exact']
 UNPROVED = []
 
 
